@@ -460,4 +460,34 @@ pub mod verif_hooks {
         let has = b.scratch_flags & HB_BUFFER_SCRATCH_FLAG_HAS_GPOS_ATTACHMENT != 0;
         Some((applied, b.idx, b.pos.iter().map(rd_pos).collect(), has))
     }
+    /// `GPOS::position_start`, then `position` (every GPOS lookup of the plan through the real
+    /// `apply_layout_table` driver, i.e. one apply context for the whole table), then — when `finish` —
+    /// `GPOS::position_finish_offsets`, on an injected buffer.
+    /// infos: (glyph id, mask, glyph_props, lig_props, unicode_props).
+    /// Returns (positions, HAS_GPOS_ATTACHMENT set).
+    pub fn position_buffer(
+        face: &hb_font_t,
+        plan: &hb_ot_shape_plan_t,
+        direction: Direction,
+        infos: &[(u32, u32, u16, u8, u16)],
+        pos: &[P],
+        finish: bool,
+    ) -> (Vec<P>, bool) {
+        let mut b = mk_buffer(pos, infos.len(), direction);
+        for (k, (g, m, gp, lp, up)) in infos.iter().enumerate() {
+            b.info[k].glyph_id = *g;
+            b.info[k].mask = *m;
+            b.info[k].cluster = k as u32;
+            b.info[k].set_glyph_props(*gp);
+            b.info[k].set_lig_props(*lp);
+            b.info[k].set_unicode_props(*up);
+        }
+        GPOS::position_start(face, &mut b);
+        position(plan, face, &mut b);
+        let has = b.scratch_flags & HB_BUFFER_SCRATCH_FLAG_HAS_GPOS_ATTACHMENT != 0;
+        if finish {
+            GPOS::position_finish_offsets(face, &mut b);
+        }
+        (b.pos.iter().map(rd_pos).collect(), has)
+    }
 }
